@@ -216,5 +216,45 @@ func main() {
 			w.Emit(ev)
 		}
 	}
+	// directed family: segments close to the SCION limits (<= 64 hop fields per path, <= 63 per segment)
+	type long struct{ nCore, la, lb int }
+	for li, l := range []long{{1, 62, 1}, {1, 61, 1}, {1, 31, 33}, {3, 60, 1}, {40, 0, 26},
+		{1, 63, 0}, {64, 0, 0}} {
+		rng := vt.Rand(int64(100000 + li))
+		t, a, b := segs.Lines(rng, l.nCore, l.la, l.lb)
+		ss, err := t.Run(base.Add(-time.Minute), rng, 70, nil)
+		if err != nil {
+			vt.Fatal("beaconing run (long lines) failed: %v", err)
+		}
+		src, dst := a, b
+		var cs []*seg.PathSegment
+		for _, c := range ss.Core { // only the core segments between the two ends of the core line
+			if c.FirstIA() == t.Order[l.nCore-1] && c.LastIA() == t.Order[0] {
+				cs = append(cs, c)
+			}
+		}
+		for _, all := range []bool{li%2 == 1} {
+			caseNo++
+			w.Emit(vt.M{"ev": "reset", "case": caseNo, "topology": 100000 + li})
+			ev := vt.M{"ev": "combine", "src": segs.IAStr(src), "dst": segs.IAStr(dst), "all": all,
+				"ups": segs.SegsJSON(ss.Down[src], base), "cores": segs.SegsJSON(cs, base),
+				"downs": segs.SegsJSON(ss.Down[dst], base)}
+			func() {
+				defer func() {
+					if r := recover(); r != nil {
+						ev["ev"] = "panic"
+						ev["what"] = fmt.Sprint(r)
+					}
+				}()
+				res := combinator.Combine(src, dst, ss.Down[src], cs, ss.Down[dst], all)
+				ps := make([]vt.M, 0, len(res))
+				for _, p := range res {
+					ps = append(ps, pathJSON(p))
+				}
+				ev["paths"] = ps
+			}()
+			w.Emit(ev)
+		}
+	}
 	fmt.Printf("cases=%d\n", caseNo)
 }
